@@ -35,6 +35,11 @@ VARIANTS = {
                            (S + "Core/Iterators/HalfFaceVertexIter.cc", [(r"\bhehs\b", "face_hes")])],
     "rename_vector_locals": [(S + "Geometry/Vector11T.hh", [(r"\b_rhs\b", "_other"), (r"\b_s\b", "_scalar")]),
                              (S + "Core/GeometryKernel.hh", [(r"\bvalence\b(?!\()", "count"), (r"\bhfv_it\b", "fv"), (r"\bcv_it\b", "cvit"), (r"\bp1\b", "q1"), (r"\bp2\b", "q2"), (r"\bp3\b", "q3")])],
+    "rename_lookup_locals": [(S + "Core/TopologyKernel.cc", [(r"\bhe0\b", "first_he"), (r"\bhe1\b", "second_he"), (r"\bhehf_it\b", "around"), (r"\ball_vertices_found\b", "matches"), (r"\boffset\b", "shift"), (r"\bhfv_it\b", "circ"), (r"\bvoh_it\b", "out_it"), (r"\bheh_opp\b", "flipped"), (r"\bhfh_opp\b", "neighbour"), (r"\bvhs\b", "result")]),
+                             (S + "Core/TopologyKernel.hh", [(r"\bvhs\b", "seen_vertices")])],
+    "rename_normal_locals": [(S + "Attribs/NormalAttribT_impl.hh", [(r"\bhalffaces\b", "boundary"), (r"\bvoh_it\b", "oh"), (r"\bhehf_it\b", "hf"), (r"\bhf_it\b", "it"), (r"\b_vh\b", "_v"), (r"\b_fh\b", "_f")]),
+                             (S + "Attribs/NormalAttrib.hh", [(r"\bmult\b", "sign")])],
+    "rename_swap_bool": [(S + "Core/detail/swap_bool.hh", [(r"\btmp\b", "saved"), (r"\ba\b", "lhs"), (r"\bb\b", "rhs")])],
     "shift_lines": [(S + "Core/TopologyKernel.cc", [(r"\A", "// moved\n// moved\n// moved\n")]), (S + "IO/detail/BinaryFileReader.cc", [(r"\A", "\n\n\n\n\n")]), (S + "Core/TopologyKernel.hh", [(r"#pragma once", "#pragma once\n\n\n")]), (S + "FileManager/FileManagerT_impl.hh", [(r"\A", "\n\n")])],
     "reorder_independent": [(S + "Core/TopologyKernel.hh", [(r"        edges_\.clear\(\);\n        faces_\.clear\(\);", "        faces_.clear();\n        edges_.clear();"), (r"        n_deleted_vertices_ = 0;\n        n_deleted_edges_ = 0;", "        n_deleted_edges_ = 0;\n        n_deleted_vertices_ = 0;")]),
                             (S + "Core/TopologyKernel.cc", [(r"    edges_\.emplace_back\(_fromVertex, _toVertex\);\n    edge_deleted_\.push_back\(false\);", "    edge_deleted_.push_back(false);\n    edges_.emplace_back(_fromVertex, _toVertex);")])],
